@@ -127,6 +127,17 @@ def invoke {β : Type} (F : Nat → List β → β) (g : PG) (buf : Nat → β) 
   let v := F n ((inputsOf g n).map buf)
   fun m => if m = n then v else buf m
 
+/-- buffer map as a structure, so that the compiled `invokeM` has arity 4 and evaluates `v` ONCE per
+    invocation (a definition whose result type is a function is eta-expanded by the compiler and would
+    re-evaluate `v` on every lookup: exponential on dense graphs).  `invokeM F g ⟨buf⟩ n = ⟨invoke F g buf n⟩`
+    by `rfl` (`Dasp.Graph.foldl_invokeM`). -/
+structure Mem (β : Type) where
+  get : Nat → β
+
+def invokeM {β : Type} (F : Nat → List β → β) (g : PG) (mem : Mem β) (n : Nat) : Mem β :=
+  let v := F n ((inputsOf g n).map mem.get)
+  ⟨fun m => if m = n then v else mem.get m⟩
+
 structure Result (β : Type) where
   proc : Proc
   /-- (node, inputs) per `Node::process` invocation, in order -/
@@ -142,7 +153,7 @@ def process {β : Type} (F : Nat → List β → β) (g : PG) (p : Proc) (buf : 
     let s := run ⟨g.inc⟩ (resetMoveTo g p root)
     some { proc := ⟨s.stack, s.disc, s.fin⟩
            log := s.out.map (fun n => (n, inputsOf g n))
-           buf := s.out.foldl (invoke F g) buf }
+           buf := (s.out.foldl (invokeM F g) ⟨buf⟩).get }
   else none
 
 /-! ### `sources` / `sinks` (lib.rs:352-376) -/
